@@ -16,6 +16,7 @@ What is emitted
 """
 import ast
 import os
+import re
 import struct
 
 from vlib.core import GenError, zlit, zlist
@@ -233,6 +234,120 @@ def axis_ctor_args(tree, attr):
     raise GenError('System.__init__: self.%s not constructed' % attr)
 
 
+# ---------------------------------------------------------------------------
+# MasterAxisStatus._reset (mode command 15) and the error-flag setters of SimpleAxisStatus
+
+_EXPECT_STRICT = _expect
+
+ERR_WORD_SHAPE = ["return utils.bytes_to_binary(self.status[10:14])[::-1]"]
+ERR_GETTER_SHAPE = ["return bool(int(self.errors[@k@]))"]
+ERR_SETTER_SHAPE = """if not isinstance(value, bool):
+    raise ValueError('Provide a boolean!')
+errors = list(self.errors)
+errors[@k@] = str(int(value))
+self.status[10:14] = utils.binary_to_bytes(''.join(errors)[::-1])""".splitlines()
+RESET_TAIL = ['self.executed_mode_command_counter = counter',
+              'self.executed_mode_command = @mode@',
+              'self.executed_mode_command_answer = @answer@']
+
+# the protocol's error word (used only by the Python oracles when the source shapes are not recognised)
+DEFAULT_ERROR_FLAGS = [
+    ('Error_Active', 0), ('System_fault', 1), ('Em_Stop', 2), ('Em_Limit_Dn_Act', 3), ('Em_Limit_Up_Act', 4),
+    ('Brake_Error', 6), ('Power_Error', 7), ('Servo_Error', 8), ('Servo_Timeout', 9), ('v_Motor_Exceed', 11),
+    ('Servo_Overload', 12), ('Pos_Enc_Error', 13), ('Pos_Enc_Step', 14), ('p_Range_Exceed', 15),
+    ('p_Dev_Exceed', 16), ('Servo_DC_Error', 17), ('Override_Error', 18), ('Cmd_Timeout', 19),
+    ('Rate_Loop_Err', 22), ('v_Dev_Exceed', 23), ('Stow_Error', 24), ('Stow_Timeout', 25), ('Extern_Error', 26),
+    ('Safety_Dev_Error', 27), ('Com_Error', 29), ('Pre_Limit_Err', 30), ('Fin_Limit_Err', 31)]
+
+
+def _props(tree, cls):
+    """name -> (getter FunctionDef, setter FunctionDef or None) of the properties of class `cls`"""
+    out = {}
+    for node in tree.body:
+        if isinstance(node, ast.ClassDef) and node.name == cls:
+            for f in node.body:
+                if not isinstance(f, ast.FunctionDef):
+                    continue
+                decs = [ast.unparse(d) for d in f.decorator_list]
+                if decs == ['property']:
+                    if f.name in out:
+                        raise GenError('%s.%s: property defined twice' % (cls, f.name))
+                    out[f.name] = [f, None]
+                elif decs == [f.name + '.setter']:
+                    if f.name not in out or out[f.name][1] is not None:
+                        raise GenError('%s.%s: setter without property / defined twice' % (cls, f.name))
+                    out[f.name][1] = f
+            return out
+    raise GenError('class %s not found' % cls)
+
+
+def _class_names(tree, cls):
+    for node in tree.body:
+        if isinstance(node, ast.ClassDef) and node.name == cls:
+            names = set()
+            for f in node.body:
+                if isinstance(f, (ast.FunctionDef, ast.ClassDef)):
+                    names.add(f.name)
+                elif isinstance(f, ast.Assign):
+                    names.update(ast.unparse(t) for t in f.targets)
+            return names
+    raise GenError('class %s not found' % cls)
+
+
+def reset_tables(t_axis):
+    """-> dict(error_flags=[(name, bit)] of every flag of the error word, reset_flags=[(name, bit)]
+    the flags `_reset` clears, in source order, reset_mode, reset_answer).  Fails closed: every
+    statement of `_reset` must be `self.<error flag> = False` or one of the three closing
+    assignments; every error-flag setter must have the one known shape."""
+    props = _props(t_axis, 'SimpleAxisStatus')
+    if 'errors' not in props or props['errors'][1] is not None:
+        raise GenError('SimpleAxisStatus.errors: not a read-only property')
+    _EXPECT_STRICT('SimpleAxisStatus.errors', _body_lines(props['errors'][0]), ERR_WORD_SHAPE)
+    flags = {}
+    for name, (g, st) in props.items():
+        src = '\n'.join(_body_lines(g)) + '\n' + ('\n'.join(_body_lines(st)) if st is not None else '')
+        if 'errors' not in src and 'status[10:14]' not in src:
+            continue
+        if name == 'errors':
+            continue
+        if st is None:
+            raise GenError('SimpleAxisStatus.%s reads the error word but has no setter' % name)
+        k1 = _EXPECT_STRICT('SimpleAxisStatus.%s (getter)' % name, _body_lines(g), ERR_GETTER_SHAPE)['k']
+        k2 = _EXPECT_STRICT('SimpleAxisStatus.%s (setter)' % name, _body_lines(st), ERR_SETTER_SHAPE)['k']
+        if k1 != k2 or not k1.isdigit() or not 0 <= int(k1) < 32:
+            raise GenError('SimpleAxisStatus.%s: getter/setter bit %s/%s' % (name, k1, k2))
+        flags[name] = int(k1)
+    if len(set(flags.values())) != len(flags):
+        raise GenError('two error flags share a bit: %r' % (flags,))
+    # nothing else may write the error word
+    whole = ast.unparse(t_axis)
+    if whole.count('self.status[10:14] = ') != len(flags):
+        raise GenError('the error word status[10:14] is written outside the %d flag setters' % len(flags))
+    shadow = _class_names(t_axis, 'MasterAxisStatus') & (set(flags) | {'errors', 'status'})
+    if shadow:
+        raise GenError('MasterAxisStatus overrides %r' % (sorted(shadow),))
+    fn = _fn(t_axis, 'MasterAxisStatus', '_reset')
+    if ast.unparse(fn.args) != 'self, counter, *_' or fn.decorator_list:
+        raise GenError('MasterAxisStatus._reset: unexpected signature (%s)' % ast.unparse(fn.args))
+    lines = _body_lines(fn)
+    if len(lines) < 3:
+        raise GenError('MasterAxisStatus._reset: body too short')
+    v = _EXPECT_STRICT('MasterAxisStatus._reset (closing assignments)', lines[-3:], RESET_TAIL)
+    cleared = []
+    for ln in lines[:-3]:
+        m = re.fullmatch(r'self\.(\w+) = False', ln)
+        if not m:
+            raise GenError('MasterAxisStatus._reset: unknown statement shape: %s' % ln)
+        name = m.group(1)
+        if name not in flags:
+            raise GenError('MasterAxisStatus._reset assigns %s, which is not a flag of the error word' % name)
+        if name in [n for n, _ in cleared]:
+            raise GenError('MasterAxisStatus._reset clears %s twice' % name)
+        cleared.append((name, flags[name]))
+    return dict(error_flags=sorted(flags.items(), key=lambda p: p[1]), reset_flags=cleared,
+                reset_mode=int(v['mode']), reset_answer=int(v['answer']))
+
+
 DEFAULT_LITERALS = dict(n_flag=4, at_len=8, at_cnt=12, at_num=16, min_len=20, cmd_len=26, pt_head=42,
                         pt_entry=20, st_inactive=0, st_active=3, slew_limit=1, stow_rate_factor=0.5)
 
@@ -309,6 +424,13 @@ def tables(repo, strict=True):
     T['st_active'] = int(v['st_active'])
     T['slew_limit'] = int(v['slew_limit'])
     T['stow_rate_factor'] = float(v['stow_rate_factor'])
+    try:
+        T.update(reset_tables(t_axis))
+    except GenError:
+        if _expect is _EXPECT_STRICT:
+            raise
+        T.update(error_flags=list(DEFAULT_ERROR_FLAGS), reset_flags=list(DEFAULT_ERROR_FLAGS),
+                 reset_mode=15, reset_answer=1)
     for name in ('AZ', 'EL'):
         kw = axis_ctor_args(t_init, name)
         if set(kw) - {'n_motors', 'max_rates', 'op_range', 'start_pos', 'stow_pos'}:
@@ -364,6 +486,14 @@ def coq_text(T):
          '(* _preset_relative adds the angle to p_Ist (true) or to p_Soll (false) *)',
          'Definition rel_from_p_Ist : bool := %s.' % ('true' if T['rel_from_p_Ist'] else 'false'),
          'Definition stow_rate_factor_bits : Z := %d.' % bits64(T['stow_rate_factor']),
+         '(* the named flags of the error word status[10:14] (bit i = errors[i]): %s *)'
+         % ', '.join('%s %d' % p for p in T['error_flags']),
+         'Definition error_flags : list Z := %s.' % zlist([k for _, k in T['error_flags']]),
+         '(* the flags MasterAxisStatus._reset assigns False, in source order: %s *)'
+         % ', '.join(n for n, _ in T['reset_flags']),
+         'Definition reset_clears : list Z := %s.' % zlist([k for _, k in T['reset_flags']]),
+         'Definition reset_mode : Z := %d.' % T['reset_mode'],
+         'Definition reset_answer : Z := %d.' % T['reset_answer'],
          '']
     for name in ('AZ', 'EL'):
         c = T[name]
